@@ -78,6 +78,9 @@ class Sym:
             return ast.Constant(float(m.group(1)))
         if a in ("const true", "const false"):
             return ast.Constant(a == "const true")
+        m = re.match(r"^const '(\\?.)'$", a)
+        if m:
+            return ast.Constant(m.group(1))        # char literal
         m = re.match(r"^const (?:\w+::)*(\w+)$", a)
         if m:
             return ast.Name(m.group(1), ast.Load())
@@ -134,7 +137,7 @@ class Sym:
             return
         v = self._rvalue(s, p)
         nm = self.names.get(dest)
-        if nm and s.op == "use" and re.match(r"^\(\(_\d+ as \w+\)\.\d+:", s.args[0]):
+        if nm and s.op == "use" and re.match(r"^\(\(_\d+ as \w+\)\.\d+:", s.args[0]) and getattr(self, "name_patterns", True):
             v = ast.Name(self.name_of(dest), ast.Load())    # pattern-bound variable (`Some(i)`): name it
         st[dest] = v
 
